@@ -5,5 +5,5 @@ W="$1"; MD="$2"; CFG="$3"; MOD="$4"; shift 4
 mkdir -p "$MD"
 exec java -XX:+UseParallelGC ${TLC_JAVA_OPTS:--Xss512m} \
   -cp /opt/veriftools/tla/tla2tools.jar:/opt/veriftools/tla/CommunityModules-deps.jar \
-  -DTLA-Library=/verif/spec tlc2.TLC -workers "$W" -metadir "$MD" -cleanup -noGenerateSpecTE -nowarning \
+  -DTLA-Library="$(dirname "$MOD")" tlc2.TLC -workers "$W" -metadir "$MD" -cleanup -noGenerateSpecTE -nowarning \
   -config "$CFG" "$MOD" "$@"
